@@ -1,6 +1,6 @@
 """C08 - Every UDP datagram's destination passes the outbound policy."""
 MANIFEST = dict(
-    text="TLC exhausts Sys_UDPSessions in its policy configuration (3 destinations, decision cache of 2 with eviction, hook on/off) against the Prop_C08 monitor and rejects the 'no check once the cache is full' mutant; seeded sequences over 300-1000 destinations (more than the real cache of 256, repeats after eviction, hooked sessions) and the TLC-generated behaviours are run on a real udpSessionManager and validated by TLC against the same monitor.",
+    text="TLC exhausts Sys_UDPSessions in its policy configuration (3 destinations, decision cache of 2 with eviction, hook on/off) against the Prop_C08 monitor and rejects the 'no check once the cache is full', 'dial with the unrewritten address' and 'vet the address of the packet's first fragment, write to the last one's' mutants (fragments of one packet may name different destinations); seeded sequences over 300-1000 destinations (more than the real cache of 256, repeats after eviction, hooked sessions) and the TLC-generated behaviours are run on a real udpSessionManager and validated by TLC against the same monitor.",
     note="Trusted: TLC, the fakes' logging. The policy is an arbitrary predicate given to the monitor as the set of allowed destinations of each scenario; the monitor never looks at the cache.",
     tech="TLA+ model checking (TLC) + TLC trace validation of real-code traces", ref="5/C08")
 
@@ -21,6 +21,7 @@ def run(ctx):
     ctx.tlc_mc("MC_UDPSessions", "MC_UDPSessions_C08hook.cfg", timeout=900)
     ctx.tlc_mc("MC_UDPSessions", "MC_UDPSessions_C08_mutCheck.cfg", expect_violation=True)
     ctx.tlc_mc("MC_UDPSessions", "MC_UDPSessions_C08hook_mutVet.cfg", expect_violation=True)
+    ctx.tlc_mc("MC_UDPSessions", "MC_UDPSessions_C08_mutVetWritten.cfg", expect_violation=True)
     scns = ctx.tlc_gen("MC_UDPSessions", "Gen_UDPSessions.cfg", num=200 if T else 40, depth=150, timeout=600)
     ctx.write_scenarios("udpsess", scns)
     ctx.go_test("core", "./server/", "TestVerif_C07$", ["harness/core/server/c07_test.go"], timeout=240)
